@@ -1,12 +1,164 @@
-(* C14 (small matchers) - stub used while confirming the candidate defects on the unrepaired tree *)
+(* C14 - Protocol matchers accept exactly what the wire definition and the filters say: the small
+   matchers.  The references (abstract first message with every field over its full range,
+   encoder, mandatory-field predicate wf, filter predicate passes) are in model/MatchSmall.v
+   and mention no matcher.  [typed] hypotheses only state field widths and the absence of the
+   protocol's own delimiters inside text fields (an encoder is not injective without them).
+   Property theorems only (lemmas: proofs/MatchSmallProofs.v). *)
 From Coq Require Import String.
 From Coq Require Import List NArith ZArith Bool.
 From Coq.Strings Require Import Byte.
 From L4 Require Import Hex.
 From L4.model Require Import GoBase MatchSmall.
+From L4.proofs Require Import MatchSmallLemmas MatchSmallProofs.
 Import ListNotations.
 
-Theorem C14_socks5_v0_accepts_zero_methods_refuted :
-  exists p, fst (socks5_run_gen false [0; 1; 2]%N p) = Yes /\ p = unhex "0500".
-Proof. exists (unhex "0500"). split; vm_compute; reflexivity. Qed.
-Print Assumptions C14_socks5_v0_accepts_zero_methods_refuted.
+(* ---- ssh: RFC 4253 identification string ---- *)
+Theorem C14_ssh_match_iff_ref : forall m, ssh_typed m -> (ssh_match (ssh_encode m) = Yes <-> ssh_wf m).
+Proof. exact ssh_match_iff_ref. Qed.
+Theorem C14_ssh_exactly_the_magic : forall bs, ssh_match bs = Yes <-> starts_with bs (unhex "5353482d").
+Proof. exact ssh_iff_starts. Qed.
+
+(* ---- proxy_protocol: v1 line or v2 signature ---- *)
+Theorem C14_proxy_protocol_match_iff_ref : forall m, pp_typed m -> (pp_match (pp_encode m) = Yes <-> pp_wf m).
+Proof. exact pp_match_iff_ref. Qed.
+Theorem C14_proxy_protocol_exactly_the_magics : forall bs,
+  pp_match bs = Yes <-> (12 <= length bs)%nat /\ (starts_with bs (unhex "50524f5859") \/ starts_with bs pp_sig2).
+Proof. exact pp_iff_starts. Qed.
+
+(* ---- xmpp: the documented sniff ("jabber" within the first 50 bytes, at least 50 bytes) ---- *)
+Theorem C14_xmpp_exactly_the_sniff : forall bs,
+  xmpp_match bs = Yes <->
+  (50 <= length bs)%nat /\ exists i, (i + 6 <= 50)%nat /\ occurs_at bs (unhex "6a6162626572") i.
+Proof. exact xmpp_iff_occurs. Qed.
+Theorem C14_xmpp_rfc6120_complete_partial : forall h,
+  (length (xh_pre h) + 14 <= 50)%nat -> (50 <= length (xmpp_encode h))%nat -> xmpp_match (xmpp_encode h) = Yes.
+Proof. exact xmpp_header_early_namespace. Qed.
+(* against RFC 6120 this is only partial: a stream header with to= before xmlns= is rejected
+   (recorded finding C14:xmpp:rejects-valid-late-namespace) *)
+Theorem C14_xmpp_rfc6120_complete_refuted :
+  occurs_at xmpp_late_header (unhex "786d6c6e733d276a61626265723a636c69656e7427") 53 /\ xmpp_match xmpp_late_header = No.
+Proof.
+  split; [|exact xmpp_late_namespace_rejected].
+  exists (firstn 53 xmpp_late_header), (skipn 74 xmpp_late_header). split; vm_compute; reflexivity.
+Qed.
+
+(* ---- socks4 ---- *)
+Theorem C14_socks4_match_iff_ref : forall cfg m t,
+  socks4_typed m -> Forall cidr_typed (s4_cidrs cfg) ->
+  (socks4_match cfg (socks4_encode m ++ t) = Yes <-> socks4_wf m /\ socks4_passes cfg m).
+Proof. exact socks4_match_iff_ref. Qed.
+
+(* ---- socks5 ---- *)
+Theorem C14_socks5_match_iff_ref : forall auth m t,
+  socks5_typed m -> (socks5_match auth (socks5_encode m ++ t) = Yes <-> socks5_wf m /\ socks5_passes auth m).
+Proof. exact socks5_match_iff_ref. Qed.
+(* the tree before commit b290889 *)
+Theorem C14_socks5_v0_zero_methods_refuted :
+  exists m, socks5_typed m /\ ~ socks5_wf m /\ fst (socks5_run_gen false [0; 1; 2]%N (socks5_encode m)) = Yes.
+Proof. exact socks5_v0_accepts_zero_methods. Qed.
+
+(* ---- postgres: SSLRequest, or StartupMessage >= 3.0 with at least one parameter ---- *)
+Theorem C14_postgres_match_iff_ref : forall m t, pg_typed m -> (pg_match (pg_encode m ++ t) = Yes <-> pg_wf m).
+Proof. exact pg_match_iff_ref. Qed.
+(* the sniff is laxer than the message formats in two places (not treated as defects) *)
+Theorem C14_postgres_strict_framing_refuted :
+  pg_match (unhex "0000001004d2162f0000000000000000") = Yes /\ pg_match (unhex "0000000f0003000075736572006100") = Yes.
+Proof. split; vm_compute; reflexivity. Qed.
+
+(* ---- regexp: the first Count bytes satisfy the pattern (engine abstract) ---- *)
+Theorem C14_regexp_match_iff_ref : forall re count bs,
+  regexp_match re count bs = Yes <-> (count <= N.of_nat (length bs))%N /\ re (firstn (N.to_nat count) bs) = true.
+Proof. exact regexp_iff. Qed.
+Theorem C14_regexp_default_count : re_provision 0 = 4%N /\ forall c, (0 < c)%N -> re_provision c = c.
+Proof. exact re_provision_spec. Qed.
+
+(* ---- tls record gate (inner ClientHello matchers abstract) ---- *)
+Theorem C14_tls_gate_match_iff_ref : forall inner m t,
+  tls_typed m -> (tls_match inner (tls_encode m ++ t) = Yes <-> tls_wf m /\ inner (tr_body m) = true).
+Proof. exact tls_match_iff_ref. Qed.
+
+(* ---- http request-line gate ---- *)
+Theorem C14_http_gate_match_iff_ref : forall m, http_typed m -> (http_gate (http_encode m) = Yes <-> http_wf m).
+Proof. exact http_match_iff_ref. Qed.
+
+(* ---- clock: half-open window with the swap and Before = 0 => 24:00:00 rules ---- *)
+Theorem C14_clock_match_iff_ref : forall after before now,
+  clock_match (clock_provision after before) now = Yes <-> clock_ref after before now.
+Proof. exact clock_iff_ref. Qed.
+Theorem C14_clock_second_of_day : forall unix offset, (0 <= clock_now unix offset < 86400)%Z.
+Proof. exact clock_now_range. Qed.
+
+(* ---- remote_ip / local_ip: CIDR containment over 32/128-bit values ---- *)
+Theorem C14_ip_match_iff_ref : forall cidrs a,
+  Forall cidr_typed cidrs -> addr_typed a -> (ip_match cidrs (Some a) = Yes <-> ip_ref cidrs a).
+Proof. exact ip_match_iff_ref. Qed.
+
+(* ---- not: matches iff every negated matcher set answers No ---- *)
+Theorem C14_not_yes_iff : forall sets p, not_match sets p = Yes <-> Forall (fun ms => mset_match ms p = No) sets.
+Proof. exact not_yes_iff. Qed.
+Theorem C14_not_no_iff : forall sets p,
+  not_match sets p = No <->
+  exists a ms b, sets = a ++ ms :: b /\ Forall (fun ms' => mset_match ms' p = No) a /\ mset_match ms p = Yes.
+Proof. exact not_no_iff. Qed.
+Theorem C14_matcher_set_is_conjunction : forall ms p, mset_match ms p = Yes <-> Forall (fun m : matcher => m p = Yes) ms.
+Proof. exact mset_yes_iff. Qed.
+
+
+(* ---- the boolean references the engine computes in Go (and the correspondence check recomputes
+   from the abstract message carried in KRef cases) are these references ---- *)
+Theorem C14_socks4_engine_reference : forall cfg m,
+  socks4_typed m -> Forall cidr_typed (s4_cidrs cfg) ->
+  (socks4_ref_b cfg m = true <-> socks4_wf m /\ socks4_passes cfg m).
+Proof. exact socks4_ref_b_iff. Qed.
+Theorem C14_socks5_engine_reference : forall auth m, socks5_ref_b auth m = true <-> socks5_wf m /\ socks5_passes auth m.
+Proof. exact socks5_ref_b_iff. Qed.
+Theorem C14_postgres_engine_reference : forall m, pg_ref_b m = true <-> pg_wf m.
+Proof. exact pg_ref_b_iff. Qed.
+
+(* ---- non-vacuity: typed, well-formed messages that pass and that fail the filters ---- *)
+Definition ex_s4 : socks4_msg := {| s4_vn := x04; s4_cd := x01; s4_port := 443; s4_ip := 167772161; s4_user := unhex "726f6f74" |}.
+Definition ex_cfg : socks4_cfg :=
+  {| s4_commands := [1%N]; s4_ports := [80%N; 443%N]; s4_cidrs := [{| c_is6 := false; c_addr := 167772160; c_bits := 8 |}] |}.
+Example C14_nonvacuous :
+  socks4_typed ex_s4 /\ Forall cidr_typed (s4_cidrs ex_cfg) /\
+  socks4_match ex_cfg (socks4_encode ex_s4) = Yes /\
+  socks4_match {| s4_commands := [2%N]; s4_ports := []; s4_cidrs := [] |} (socks4_encode ex_s4) = No /\
+  socks4_match ex_cfg (socks4_encode {| s4_vn := x04; s4_cd := x01; s4_port := 443; s4_ip := 184549377; s4_user := [] |}) = No /\
+  pg_typed (PgStartup 3 0 [(unhex "75736572", unhex "61")]) /\
+  pg_match (pg_encode (PgStartup 3 0 [(unhex "75736572", unhex "61")])) = Yes /\
+  pg_match (pg_encode (PgStartup 3 0 [])) = No /\
+  socks5_match [0%N; 2%N] (socks5_encode {| s5_ver := x05; s5_methods := [x00; x02] |}) = Yes /\
+  socks5_match [0%N; 2%N] (socks5_encode {| s5_ver := x05; s5_methods := [x00; x01] |}) = No /\
+  socks5_match [0%N; 2%N] (socks5_encode {| s5_ver := x05; s5_methods := [] |}) = No /\
+  clock_match (clock_provision 79200 21600) 36000 = Yes /\ clock_match (clock_provision 36000 0) 86399 = Yes.
+Proof.
+  split; [cbv; split; reflexivity|]. split; [repeat constructor|].
+  split; [vm_compute; reflexivity|]. split; [vm_compute; reflexivity|]. split; [vm_compute; reflexivity|].
+  split.
+  { cbn [pg_typed]. split; [split; reflexivity|]. split; [vm_compute; discriminate|]. split; [|discriminate].
+    constructor; [|constructor]. cbn [fst snd]. split; [discriminate|]. split; intros H; vm_compute in H; intuition discriminate. }
+  repeat split; vm_compute; reflexivity.
+Qed.
+
+Print Assumptions C14_ssh_match_iff_ref.
+Print Assumptions C14_ssh_exactly_the_magic.
+Print Assumptions C14_proxy_protocol_match_iff_ref.
+Print Assumptions C14_proxy_protocol_exactly_the_magics.
+Print Assumptions C14_xmpp_exactly_the_sniff.
+Print Assumptions C14_xmpp_rfc6120_complete_refuted.
+Print Assumptions C14_socks4_match_iff_ref.
+Print Assumptions C14_socks5_match_iff_ref.
+Print Assumptions C14_socks5_v0_zero_methods_refuted.
+Print Assumptions C14_postgres_match_iff_ref.
+Print Assumptions C14_regexp_match_iff_ref.
+Print Assumptions C14_tls_gate_match_iff_ref.
+Print Assumptions C14_http_gate_match_iff_ref.
+Print Assumptions C14_clock_match_iff_ref.
+Print Assumptions C14_ip_match_iff_ref.
+Print Assumptions C14_not_yes_iff.
+Print Assumptions C14_not_no_iff.
+Print Assumptions C14_matcher_set_is_conjunction.
+Print Assumptions C14_socks4_engine_reference.
+Print Assumptions C14_socks5_engine_reference.
+Print Assumptions C14_postgres_engine_reference.
+Print Assumptions C14_xmpp_rfc6120_complete_partial.
